@@ -919,4 +919,82 @@ example :
     (gbCompute ([⟨.int 0, c 1⟩, ⟨.int 1, c 2⟩, ⟨.int 2, c 1⟩, ⟨.int 3, none⟩, ⟨.int 4, c 2⟩].foldl
       (gbFill 2 t) [])).map (·.map (·.data)) = [[.int 0, .int 2], [.int 1, .int 4], [.int 3]] := by decide
 
+/-! ### `fill` errors, argument types, the deprecated `_GroupBy` -/
+
+/-- **`GroupBy.fill` raises `LenaValueError` ("could not format context") exactly when an object that
+`json.dumps` cannot encode sits at a *selected* key path** — such objects under merged keys do no harm
+("consider ignoring some keys in merge"); the groups are then unchanged, otherwise `fill` does what
+`groupby_partition` describes -/
+theorem groupby_fill_raises_iff (f : Nat) (I E : List Path) (d : Bool) (T : Tree) (h : make f I E d = .ok T)
+    (w : Nat) (gs : Groups) (v : Item) :
+    (gbFillR w T gs v = .error "LenaValueError" ↔
+      ∃ k p s, atPath (.dict (v.context w)) (k :: p) = some (.leaf (.obj s)) ∧ selC I E d (k :: p) = true) ∧
+    (gbFillR w T gs v ≠ .error "LenaValueError" → gbFillR w T gs v = .ok (gbFill w T gs v)) := by
+  have hkey : groupKey w T v = keepL (selC I E d) 0 (v.context w) := iet_get_general f I E d T h _
+  have hiff : hasObjL (groupKey w T v) = true ↔
+      ∃ k p s, atPath (.dict (v.context w)) (k :: p) = some (.leaf (.obj s)) ∧ selC I E d (k :: p) = true := by
+    rw [hkey, hasObjL_iff]
+    constructor
+    · rintro ⟨j, x, hx, p, s, hp⟩
+      refine ⟨j, p, s, ?_⟩
+      rw [← (keep_leaf_paths (selC I E d) (v.context w) j p).1 (.obj s)]
+      simp [atPath_dict_cons, hx, hp]
+    · rintro ⟨k, p, s, hp⟩
+      have := ((keep_leaf_paths (selC I E d) (v.context w) k p).1 (.obj s)).2 hp
+      rw [atPath_dict_cons] at this
+      cases hx : slotGet (keepL (selC I E d) 0 (v.context w)) k with
+      | none => simp [hx] at this
+      | some x => exact ⟨k, x, hx, p, s, by simpa [hx] using this⟩
+  unfold gbFillR
+  by_cases hh : hasObjL (groupKey w T v) = true
+  · rw [if_pos hh]
+    exact ⟨⟨fun _ => hiff.1 hh, fun _ => rfl⟩, fun hne => absurd rfl hne⟩
+  · rw [if_neg hh]
+    exact ⟨⟨fun he => (by cases he), fun hx => absurd (hiff.2 hx) hh⟩, fun _ => rfl⟩
+
+/-- an object under a merged key does not disturb; under a grouped key `fill` raises -/
+example :
+    let t : Tree := .node false [0] []          -- GroupBy("a", "")
+    (gbFillR 2 t [] ⟨.int 0, some [some (.leaf (.int 1)), some (.leaf (.obj "U"))]⟩).toOption.isSome = true ∧
+    (gbFillR 2 t [] ⟨.int 0, some [some (.leaf (.obj "U")), none]⟩).toOption.isSome = false := by decide
+
+/-- `GroupBy.__init__` raises `LenaTypeError` exactly when `group_by` or `merge` is not a string or a
+container (a callable, a number, `None`): `group_by` "is no longer a function" -/
+theorem groupby_init_type_error (names : List String) (g m : GbArg) :
+    groupByInitAny names g m = .typeError ↔ g = .notIterable ∨ m = .notIterable := by
+  cases g <;> cases m <;> simp [groupByInitAny]
+
+/-- **the deprecated `_GroupBy` partitions by the value of its callable(s)**: when the key function succeeds
+on every value of the flow, the groups are the reference partition by that key (distinct keys in the order of
+first arrival, arrival order inside a group); otherwise the exception of the first failing value leaves
+`fill` (`LenaValueError` for a `LenaKeyError` of a single callable, or when every component of a tuple
+gives a false key) -/
+theorem old_groupby_partition (g : OldGb) (key : Item → List Leaf) : ∀ (vs pre : List Item),
+    (∀ v ∈ vs, oldKey g v = .ok (key v)) →
+    oldFillAll g (groupsOfG key pre) vs = .ok (groupsOfG key (pre ++ vs))
+  | [], pre, _ => by simp [oldFillAll]
+  | v :: vs, pre, h => by
+    rw [oldFillAll, oldFill, h v (by simp)]
+    simp only []
+    rw [groupsAddG_groupsOfG, old_groupby_partition g key vs (pre ++ [v]) (fun w hw => h w (by simp [hw]))]
+    simp
+
+theorem old_groupby_first_error (g : OldGb) (key : Item → List Leaf) (e : String) :
+    ∀ (vs : List Item) (v : Item) (rest : List Item) (gs : OldGroups),
+      (∀ w ∈ vs, oldKey g w = .ok (key w)) → oldKey g v = .error e →
+      oldFillAll g gs (vs ++ v :: rest) = .error e
+  | [], v, rest, gs, _, hv => by simp [oldFillAll, oldFill, hv]
+  | w :: vs, v, rest, gs, h, hv => by
+    rw [List.cons_append, oldFillAll, oldFill, h w (by simp)]
+    simp only []
+    exact old_groupby_first_error g key e vs v rest _ (fun x hx => h x (by simp [hx])) hv
+
+/-- a tuple of two callables: `(name or LenaKeyError, parity)`; `0` fails (both keys false) -/
+example :
+    let g := OldGb.tuple [(fun v => match v.data with | .int 1 => .ok (.str "one") | _ => .keyError),
+                          (fun v => match v.data with | .int i => .ok (.int (i % 2)) | _ => .raise "Other:TypeError")]
+    (oldFillAll g [] [⟨.int 1, none⟩, ⟨.int 3, none⟩, ⟨.int 5, none⟩]).toOption.map (·.map (fun kv => (kv.1, kv.2.map (·.data))))
+      = some [([.str "one", .int 1], [.int 1]), ([.str "", .int 1], [.int 3, .int 5])] ∧
+    (oldFillAll g [] [⟨.int 1, none⟩, ⟨.int 2, none⟩]).toOption.isSome = false := by decide
+
 end Lena.C15
